@@ -884,15 +884,28 @@ Definition sie_inv (zero : sample) (st : sie) : Prop :=
   (exists F, st = sie_open zero F /\ inc (-1) F) \/ after_write st.
 
 Lemma sie_seek_unfold zero sample st :
-  sie_seek zero true sample st =
+  sie_seek_v false zero true sample st =
   if (filepos st =? sample) && (0 <=? cp st) then st
   else seek_body zero sample
          (if sample <? cp st then mkSie (recs st) 0 (-1) (-1) (-1) (-1, snd (cd st)) (cl st) false true (filepos st) else st).
-Proof. reflexivity. Qed.
+Proof. unfold sie_seek_v. cbn [andb negb]. rewrite andb_true_r. reflexivity. Qed.
 
-Theorem seek_ok zero sample st :
-  sie_inv zero st -> 0 <= sample -> seek_goal zero sample st (sie_seek zero true sample st).
+(* on a fresh handle and after a write the guard of a110f5b never fires: both variants of the shortcut agree
+   (they differ only after a read-mode seek past the end) *)
+Lemma sie_seek_variants_agree g zero sample st :
+  sie_inv zero st -> sie_seek_v g zero true sample st = sie_seek_v false zero true sample st.
 Proof.
+  intros I. destruct g; [|reflexivity]. unfold sie_seek_v. cbn [andb negb]. rewrite andb_true_r.
+  destruct I as [(F0 & -> & _)|(_ & j & _ & Pcp & Pfp & _)].
+  - cbn [sie_open cp]. replace (0 <=? -1) with false by reflexivity. now rewrite andb_false_r.
+  - destruct (filepos st =? sample) eqn:E; [|reflexivity]. apply Z.eqb_eq in E.
+    replace (cs st + 1 <? sample) with false by (symmetry; apply Z.ltb_ge; lia). cbn [negb]. now rewrite andb_true_r.
+Qed.
+
+Theorem seek_ok g zero sample st :
+  sie_inv zero st -> 0 <= sample -> seek_goal zero sample st (sie_seek_v g zero true sample st).
+Proof.
+  intros I0. rewrite (sie_seek_variants_agree g zero sample st I0). revert I0.
   intros [(F0 & OP & IF0)|(IF & j & AT & Pcp & Pfp & Phl & Pb)] Hs; rewrite sie_seek_unfold.
   - subst st. cbn [sie_open filepos cp recs cd cl].
     replace (0 <=? -1) with false by reflexivity. rewrite andb_false_r.
@@ -924,21 +937,28 @@ Proof.
            ++ intros Hb _. specialize (Pb Hb). lia.
 Qed.
 
-Theorem put_ok zero p data st :
+Theorem put_ok_v g zero p data st :
   sie_inv zero st -> 0 <= p ->
-  exists st', sie_put zero p data st = Some st' /\ sie_inv zero st' /\
+  exists st', sie_put_v g zero p data st = Some st' /\ sie_inv zero st' /\
     sie_abs st' = array_write zero (sie_abs st) (Z.to_nat p) data.
 Proof.
-  intros I Hp. unfold sie_put. destruct data as [|d0 r] eqn:DD.
+  intros I Hp. unfold sie_put_v. destruct data as [|d0 r] eqn:DD.
   - exists st. repeat split; auto.
   - rewrite <- DD. assert (Hd : data <> []) by (rewrite DD; discriminate).
-    destruct (seek_ok zero p st I Hp) as (G & Cp & m & M1 & M2).
+    destruct (seek_ok g zero p st I Hp) as (G & Cp & m & M1 & M2).
     destruct (write_ok zero data _ G Hd) as (st' & W & AW & X).
     exists st'. split; [exact W|]. split; [right; exact AW|].
     unfold sie_abs. rewrite X, Cp, M1. destruct M2 as [->|M2].
     + cbn [repeat]. now rewrite app_nil_r.
     + apply array_write_pad; auto.
 Qed.
+
+(* the current code (whichever variant the source has) *)
+Theorem put_ok zero p data st :
+  sie_inv zero st -> 0 <= p ->
+  exists st', sie_put zero p data st = Some st' /\ sie_inv zero st' /\
+    sie_abs st' = array_write zero (sie_abs st) (Z.to_nat p) data.
+Proof. exact (put_ok_v _ zero p data st). Qed.
 
 Lemma sie_inv_increasing zero st : sie_inv zero st -> inc (-1) (recs st).
 Proof. intros [(F & -> & I)|[I _]]; exact I. Qed.
